@@ -11,7 +11,8 @@ CONSTANTS
   PClass,       \* [Profiles -> ProfileClasses]
   DClass        \* [Docs -> DocClasses]
 
-ProfileClasses == {"ok", "parseError", "genError", "regoError"}
+\* "reportError": compiles and evaluates, but its custom Rego puts a non-result into a result set: report building fails
+ProfileClasses == {"ok", "parseError", "genError", "regoError", "reportError"}
 DocClasses     == {"ok", "okNoNodes", "notJson", "ldReject", "evalError"}
 Unreadable     == {"notJson", "ldReject"}
 
@@ -44,7 +45,9 @@ DFail(d) == IF d \notin DOMAIN DClass THEN 0      \* "none": a stand-alone compi
                    [] DClass[d] = "ldReject"  -> 5
                    [] DClass[d] = "evalError" -> 6
                    [] OTHER -> 0
-FailStage(p, d) == IF PFail(p) # 0 THEN PFail(p) ELSE DFail(d)
+FailStage(p, d) == IF PFail(p) # 0 THEN PFail(p)
+                   ELSE IF DFail(d) # 0 THEN DFail(d)
+                   ELSE IF PClass[p] = "reportError" /\ d \in DOMAIN DClass THEN 7 ELSE 0
 
 \* milestones derived from the events (pkg/milestones): one per completed
 \* stage for which the package defines an Operation (all but RegoCompilation)
